@@ -57,6 +57,7 @@ type c12Script struct {
 	// nearLimit > 0: the answer is padded so that its compressed form (without any OPT) is nearLimit - delta octets
 	// long, i.e. the client's size limit leaves room for the OPT only just, or not at all
 	nearLimit, delta int
+	padInAr          bool
 }
 
 func TestVfC12Edns(t *testing.T) {
@@ -79,10 +80,14 @@ func TestVfC12Edns(t *testing.T) {
 				// (owner: the root, which no encoder can shorten; the length is measured on the fully compressed form, which
 				// is what ends up in the datagram)
 				pad := vfkit.RR{Owner: vfkit.Name{}, Type: 65280, Class: 1, TTL: 300, RData: []vfkit.RDPart{{Raw: nil}}}
-				m.An = append(m.An, pad)
+				sec := &m.An
+				if sc.padInAr {
+					sec = &m.Ar // glue-like: when it has to be dropped, the OPT (which comes after it) must not go with it
+				}
+				*sec = append(*sec, pad)
 				packed, _ := vfkit.Encode(m, vfkit.EncOpts{Compress: func() bool { return true }})
 				if n := sc.nearLimit - sc.delta - len(packed); n > 0 {
-					m.An[len(m.An)-1].RData = []vfkit.RDPart{{Raw: bytes.Repeat([]byte{0x61}, n)}}
+					(*sec)[len(*sec)-1].RData = []vfkit.RDPart{{Raw: bytes.Repeat([]byte{0x61}, n)}}
 				}
 			}
 			if sc.opt != nil {
@@ -224,6 +229,7 @@ func TestVfC12Edns(t *testing.T) {
 			// or something has to give way to it
 			sc.nearLimit = rapid.SampledFrom([]int{512, 1232}).Draw(t, "limit")
 			sc.delta = rapid.IntRange(0, 45).Draw(t, "octetsBelowLimit")
+			sc.padInAr = rapid.Bool().Draw(t, "padInAdditional")
 		}
 		scripts.Store(label, sc)
 		defer scripts.Delete(label)
